@@ -66,6 +66,26 @@ def rule_sig(ctx):
     ctx.floor("C18.SIG", 39)
 
 
+def rule_listed(ctx, rule="C18.FS"):
+    """the filesystem listers enumerate the directory they were given through the path object (glob('*') / iterdir() / os.scandir / os.listdir of it):
+    a string-pattern API (glob.glob / glob.iglob / fnmatch on str(path)) re-reads the directory NAME as a pattern"""
+    p = ctx.p
+    for b in ("PathIO", "AsyncPathIO"):
+        fn = p.methods(b).get("list")
+        if fn is None:
+            continue
+        pathp = fn.args.args[1].arg if len(fn.args.args) > 1 else "path"
+        calls = [c for c in ast.walk(fn) if isinstance(c, ast.Call)]
+        pattern_api = [c for c in calls if (dotted(c.func) or "").split(".")[0] in ("glob", "fnmatch") or (dotted(c.func) or "") in ("iglob", "glob", "fnmatch", "filter")
+                       and not isinstance(c.func, ast.Attribute)]
+        by_object = [c for c in calls if (isinstance(c.func, ast.Attribute) and isinstance(c.func.value, ast.Name) and c.func.value.id == pathp and c.func.attr in ("glob", "iterdir"))
+                     or ((dotted(c.func) or "") in ("os.scandir", "os.listdir") and c.args and isinstance(c.args[0], ast.Name) and c.args[0].id == pathp)]
+        ctx.ob(rule, pattern_api[0] if pattern_api else fn, f"{b}.list enumerates the children of the path object it was given", bool(by_object) and not pattern_api,
+               f"{b}.list goes through the string-pattern API `{src(pattern_api[0])[:50] if pattern_api else ''}`: a directory whose own name contains *, ? or [ is listed as "
+               "the contents of whatever the pattern matches (other directories, or nothing) while every other command addresses the real directory",
+               construct=f"fs:list:{b}:pattern api")
+
+
 def rule_fs(ctx):
     p = ctx.p
     ctx.rule("C18.FS", "each AsyncPathIO operation has the same normalised body as PathIO's (same pathlib/file call, same argument forwarding)")
@@ -96,6 +116,7 @@ def rule_fs(ctx):
     fa, fb = lister_facts("PathIO"), lister_facts("AsyncPathIO")
     ctx.ob("C18.FS", p.methods("AsyncPathIO")["list"], f"listers iterate the same source {fa[0]} and convert StopIteration", fa == fb and fa[1] and fa[2],
            f"the two filesystem listers differ: PathIO {fa} vs AsyncPathIO {fb} (e.g. iterdir() raises on a file where glob('*') yields nothing)", construct=f"fs:list:{fa[0]} vs {fb[0]}")
+    rule_listed(ctx, "C18.FS")
     # the executor wrapper runs the same function with the same arguments
     bi = p.module_funcs.get(("pathio.py", "_blocking_io"))
     if bi is not None:
@@ -562,4 +583,39 @@ def rule_append_seek(ctx):
     ctx.borrow(rule_seek, {"C01.SEEK": "C18.APPEND"})
 
 
-RULES = [rule_sig, rule_fs, rule_mode, rule_atomic, rule_srv, rule_state, rule_pure, rule_tree, rule_append_seek]
+def rule_shared_tree(ctx):
+    p = ctx.p
+    ctx.rule("C18.SHARED", "every session's in-memory backend works on THE tree of the server: the state handed in by the nursery is adopted whenever one was given (`is None`, not truthiness - "
+                           "an empty tree is falsy), and `state` returns the object the next instance must adopt")
+    mi = p.method("MemoryPathIO", "__init__")
+    stp = "state"
+    fs_stores = [n for n in walk_no_nested(mi) if isinstance(n, ast.Assign) and any(src(t) == "self.fs" for t in n.targets)]
+    if not fs_stores:
+        raise AnalysisError("anchor=MemoryPathIO.__init__ self.fs store not found")
+    adopts = [n for n in fs_stores if isinstance(n.value, ast.Name) and n.value.id == stp]
+    ok = False
+    for n in adopts:
+        ok = any(isinstance(t, ast.Compare) and isinstance(t.ops[0], (ast.Is, ast.IsNot)) and isinstance(t.comparators[0], ast.Constant) and t.comparators[0].value is None and src(t.left) == stp
+                 and ((isinstance(t.ops[0], ast.Is) and not pol) or (isinstance(t.ops[0], ast.IsNot) and pol)) for t, pol in all_guards(p, n, mi))
+    truthy = [n for n in fs_stores for x in ast.walk(n.value) if isinstance(x, ast.BoolOp) and any(isinstance(v, ast.Name) and v.id == stp for v in x.values)]
+    ctx.ob("C18.SHARED", fs_stores[0], "MemoryPathIO adopts the shared state under `state is not None`", ok and not truthy,
+           "MemoryPathIO decides by truthiness whether to adopt the shared state: while the tree is still empty every new session gets a private tree of its own "
+           "(what one session creates the other cannot see; the filesystem backends have one tree)", construct="shared:adoption test")
+    sp = [n for n in p.cls("MemoryPathIO").body if isinstance(n, FuncT) and n.name == "state" and any(last_attr(d) == "property" for d in n.decorator_list)]
+    if sp:
+        rets = [src(r.value) for r in walk_no_nested(sp[0]) if isinstance(r, ast.Return) and r.value is not None]
+        ctx.ob("C18.SHARED", sp[0], "MemoryPathIO.state is the object the constructor adopts (self.fs)", rets == ["self.fs"], f"MemoryPathIO.state returns {rets}, the constructor adopts `state` as self.fs",
+               construct="shared:state property")
+
+
+def rule_borrowed_r4(ctx):
+    from .c13 import rule_451
+    from .c16 import rule_support
+    ctx.rule("C18.451", "a failing backend operation is answered with the same code whatever the backend: the dispatcher maps every PathIOError to 451, independent of errno "
+                        "(the in-memory backend raises errno-less errors; shared with C13.451)")
+    ctx.borrow(rule_451, {"C13.451": "C18.451"})
+    ctx.rule("C18.ARGS", "the executor backend gets every argument the plain one gets: with_timeout forwards *args and **kwargs (shared with C16.SUPPORT)")
+    ctx.borrow(rule_support, {"C16.SUPPORT": "C18.ARGS"}, only=lambda fn: "with_timeout" in fn)
+
+
+RULES = [rule_sig, rule_fs, rule_mode, rule_atomic, rule_srv, rule_state, rule_pure, rule_tree, rule_append_seek, rule_shared_tree, rule_borrowed_r4]
